@@ -421,5 +421,241 @@ theorem avlRun_map (s : AT κ ν × Int) (ops : List (Op κ ν)) :
     · simp only [Option.map_some, ih]
       cases avlRun cmp s' ops <;> rfl
 
+/-! ### red-black -/
+section rb
+omit hc
+
+theorem RT.toBT_map (t : RT κ ν) : (t.map h g).toBT = t.toBT.map h g := by
+  induction t with
+  | nil => rfl
+  | node l k v c r ihl ihr => simp [RT.map, RT.toBT, BT.map, ihl, ihr]
+
+theorem RT.toList_map (t : RT κ ν) : (t.map h g).toList = mapPairs h g t.toList := by
+  simp only [RT.toList, RT.toBT_map, BT.toList_map]
+
+@[simp] theorem RT.isBlack_map (t : RT κ ν) : (t.map h g).isBlack = t.isBlack := by cases t <;> rfl
+@[simp] theorem RT.isRedNode_map (t : RT κ ν) : (t.map h g).isRedNode = t.isRedNode := by cases t <;> rfl
+@[simp] theorem RT.paint_map (c : Color) (t : RT κ ν) : RT.paint c (t.map h g) = (RT.paint c t).map h g := by cases t <;> rfl
+@[simp] theorem RT.atParent_map (d : RT.Dir) (t : RT κ ν) : RT.atParent d (t.map h g) = RT.atParent d t := by
+  simp [RT.atParent]
+
+theorem RT.atGparentL_map (p : RT κ ν) (gk : κ) (gv : ν) (u : RT κ ν) (d' : RT.Dir) :
+    RT.atGparentL (p.map h g) (h gk) (g gv) (u.map h g) d' =
+      (RT.atGparentL p gk gv u d').map fun q => (q.1.map h g, q.2) := by
+  rcases p with _ | ⟨pl, pk, pv, pc, pr⟩
+  · rfl
+  · rcases pr with _ | ⟨nl, nk, nv, nc, nr⟩ <;> cases d' <;>
+      (simp only [RT.atGparentL, RT.map, RT.isRedNode_map]; split) <;> simp [RT.map]
+
+theorem RT.atGparentR_map (u : RT κ ν) (gk : κ) (gv : ν) (p : RT κ ν) (d' : RT.Dir) :
+    RT.atGparentR (u.map h g) (h gk) (g gv) (p.map h g) d' =
+      (RT.atGparentR u gk gv p d').map fun q => (q.1.map h g, q.2) := by
+  rcases p with _ | ⟨pl, pk, pv, pc, pr⟩
+  · rfl
+  · rcases pl with _ | ⟨nl, nk, nv, nc, nr⟩ <;> cases d' <;>
+      (simp only [RT.atGparentR, RT.map, RT.isRedNode_map]; split) <;> simp [RT.map]
+
+theorem RT.fixLeft345_map (n : RT κ ν) (pk : κ) (pv : ν) (pc : Color) (s : RT κ ν) :
+    RT.fixLeft345 (n.map h g) (h pk) (g pv) pc (s.map h g) =
+      (RT.fixLeft345 n pk pv pc s).map fun q => (q.1.map h g, q.2) := by
+  rcases s with _ | ⟨sl, sk, sv, sc, sr⟩
+  · rfl
+  · rcases sl with _ | ⟨a, ak, av, ac, b⟩
+    all_goals (simp only [RT.fixLeft345, RT.map, RT.isBlack_map]; repeat' split)
+    all_goals simp_all [RT.map, RT.isBlack]
+
+theorem RT.fixRight345_map (s : RT κ ν) (pk : κ) (pv : ν) (pc : Color) (n : RT κ ν) :
+    RT.fixRight345 (s.map h g) (h pk) (g pv) pc (n.map h g) =
+      (RT.fixRight345 s pk pv pc n).map fun q => (q.1.map h g, q.2) := by
+  rcases s with _ | ⟨sl, sk, sv, sc, sr⟩
+  · rfl
+  · rcases sr with _ | ⟨a, ak, av, ac, b⟩
+    all_goals (simp only [RT.fixRight345, RT.map, RT.isBlack_map]; repeat' split)
+    all_goals simp_all [RT.map, RT.isBlack]
+
+theorem RT.deficitLeft_map (n : RT κ ν) (pk : κ) (pv : ν) (pc : Color) (s : RT κ ν) :
+    RT.deficitLeft (n.map h g) (h pk) (g pv) pc (s.map h g) =
+      (RT.deficitLeft n pk pv pc s).map fun q => (q.1.map h g, q.2) := by
+  rcases s with _ | ⟨sl, sk, sv, sc, sr⟩
+  · rfl
+  · have e1 := RT.fixLeft345_map (h := h) (g := g) n pk pv .red sl
+    have e2 := RT.fixLeft345_map (h := h) (g := g) n pk pv pc (.node sl sk sv sc sr)
+    simp only [RT.map] at e2
+    simp only [RT.deficitLeft, RT.map, e1, e2]
+    split
+    · cases RT.fixLeft345 n pk pv .red sl <;> simp [RT.map]
+    · rfl
+
+theorem RT.deficitRight_map (s : RT κ ν) (pk : κ) (pv : ν) (pc : Color) (n : RT κ ν) :
+    RT.deficitRight (s.map h g) (h pk) (g pv) pc (n.map h g) =
+      (RT.deficitRight s pk pv pc n).map fun q => (q.1.map h g, q.2) := by
+  rcases s with _ | ⟨sl, sk, sv, sc, sr⟩
+  · rfl
+  · have e1 := RT.fixRight345_map (h := h) (g := g) sr pk pv .red n
+    have e2 := RT.fixRight345_map (h := h) (g := g) (.node sl sk sv sc sr) pk pv pc n
+    simp only [RT.map] at e2
+    simp only [RT.deficitRight, RT.map, e1, e2]
+    split
+    · cases RT.fixRight345 sr pk pv .red n <;> simp [RT.map]
+    · rfl
+
+theorem RT.unlink_map (l : RT κ ν) (c : Color) (r : RT κ ν) :
+    RT.unlink (l.map h g) c (r.map h g) = ((RT.unlink l c r).1.map h g, (RT.unlink l c r).2) := by
+  cases l <;> cases r <;> cases c <;> simp [RT.unlink, RT.map, RT.paint]
+
+theorem RT.delMax_map (l : RT κ ν) (k : κ) (v : ν) (c : Color) (r : RT κ ν) :
+    RT.delMax (l.map h g) (h k) (g v) c (r.map h g) =
+      (RT.delMax l k v c r).map fun p => (p.1.map h g, p.2.1, (h p.2.2.1, g p.2.2.2)) := by
+  induction r generalizing l k v c with
+  | nil =>
+    have e := RT.unlink_map (h := h) (g := g) l c .nil
+    simp only [RT.map] at e
+    simp only [RT.map, RT.delMax, e, Option.map_some]
+  | node rl rk rv rc rr _ ihr =>
+    simp only [RT.map, RT.delMax, ihr]
+    rcases RT.delMax rl rk rv rc rr with _ | ⟨r', s, p⟩
+    · rfl
+    · cases s
+      · simp [RT.map]
+      · have e := RT.deficitRight_map (h := h) (g := g) l k v c r'
+        simp only [Option.map_some, if_true, e]
+        cases RT.deficitRight l k v c r' <;> rfl
+
+end rb
+
+/-- what `RT.insAux` returns, renamed -/
+def RT.mapInsRes (h : κ → κ') (g : ν → ν') (p : RT κ ν × RT.InsSt × Bool × List (κ × ν)) :
+    RT κ' ν' × RT.InsSt × Bool × List (κ' × ν') :=
+  (p.1.map h g, p.2.1, p.2.2.1, mapPairs h g p.2.2.2)
+
+theorem RT.insAux_map (t : RT κ ν) (x : κ) (y : ν) :
+    (t.map h g).insAux cmp' (h x) (g y) = (t.insAux cmp x y).map (RT.mapInsRes h g) := by
+  induction t with
+  | nil => rfl
+  | node l k v c r ihl ihr =>
+    simp only [RT.map, RT.insAux, hc]
+    cases cmp x k with
+    | lt =>
+      simp only [ihl]
+      rcases RT.insAux cmp l x y with _ | ⟨l', st, a, d⟩
+      · rfl
+      · rcases st with _ | _ | d'
+        · simp [RT.map, RT.mapInsRes]
+        · have e := RT.atParent_map (h := h) (g := g) .left (.node l' k v c r)
+          simp only [RT.map] at e
+          simp [RT.map, RT.mapInsRes, e]
+        · have e := RT.atGparentL_map (h := h) (g := g) l' k v r d'
+          simp only [Option.map_some, RT.mapInsRes, e]
+          cases RT.atGparentL l' k v r d' <;> rfl
+    | gt =>
+      simp only [ihr]
+      rcases RT.insAux cmp r x y with _ | ⟨r', st, a, d⟩
+      · rfl
+      · rcases st with _ | _ | d'
+        · simp [RT.map, RT.mapInsRes]
+        · have e := RT.atParent_map (h := h) (g := g) .right (.node l k v c r')
+          simp only [RT.map] at e
+          simp [RT.map, RT.mapInsRes, e]
+        · have e := RT.atGparentR_map (h := h) (g := g) l k v r' d'
+          simp only [Option.map_some, RT.mapInsRes, e]
+          cases RT.atGparentR l k v r' d' <;> rfl
+    | eq => simp [RT.map, RT.mapInsRes]
+
+/-- what `RT.ins` / `RT.del` return, renamed -/
+def RT.mapRes (h : κ → κ') (g : ν → ν') (p : RT κ ν × Bool × List (κ × ν)) : RT κ' ν' × Bool × List (κ' × ν') :=
+  (p.1.map h g, p.2.1, mapPairs h g p.2.2)
+
+theorem RT.ins_map (t : RT κ ν) (x : κ) (y : ν) :
+    (t.map h g).ins cmp' (h x) (g y) = (t.ins cmp x y).map (RT.mapRes h g) := by
+  simp only [RT.ins, RT.insAux_map hc]
+  rcases RT.insAux cmp t x y with _ | ⟨t', st, a, d⟩
+  · rfl
+  · rcases st with _ | _ | d' <;> simp [RT.mapInsRes, RT.mapRes]
+
+theorem RT.delAux_map (t : RT κ ν) (x : κ) :
+    (t.map h g).delAux cmp' (h x) =
+      (t.delAux cmp x).map fun p => (p.1.map h g, p.2.1, p.2.2.1, mapPairs h g p.2.2.2) := by
+  induction t with
+  | nil => rfl
+  | node l k v c r ihl ihr =>
+    simp only [RT.map, RT.delAux, hc]
+    cases cmp x k with
+    | lt =>
+      simp only [ihl]
+      rcases RT.delAux cmp l x with _ | ⟨l', s, f, d⟩
+      · rfl
+      · cases s
+        · simp [RT.map]
+        · have e := RT.deficitLeft_map (h := h) (g := g) l' k v c r
+          simp only [Option.map_some, if_true, e]
+          cases RT.deficitLeft l' k v c r <;> rfl
+    | gt =>
+      simp only [ihr]
+      rcases RT.delAux cmp r x with _ | ⟨r', s, f, d⟩
+      · rfl
+      · cases s
+        · simp [RT.map]
+        · have e := RT.deficitRight_map (h := h) (g := g) l k v c r'
+          simp only [Option.map_some, if_true, e]
+          cases RT.deficitRight l k v c r' <;> rfl
+    | eq =>
+      rcases l with _ | ⟨ll, lk, lv, lc, lr⟩
+      · have e := RT.unlink_map (h := h) (g := g) .nil c r
+        simp only [RT.map] at e
+        simp [RT.map, e]
+      · rcases r with _ | ⟨rl, rk, rv, rc, rr⟩
+        · have e := RT.unlink_map (h := h) (g := g) (.node ll lk lv lc lr) c .nil
+          simp only [RT.map] at e
+          simp [RT.map, e]
+        · have e := RT.delMax_map (h := h) (g := g) ll lk lv lc lr
+          simp only [RT.map, e]
+          rcases RT.delMax ll lk lv lc lr with _ | ⟨l', s, p⟩
+          · rfl
+          · cases s
+            · simp [RT.map]
+            · have e2 := RT.deficitLeft_map (h := h) (g := g) l' p.1 p.2 c (.node rl rk rv rc rr)
+              simp only [RT.map] at e2
+              simp only [Option.map_some, if_true, e2]
+              cases RT.deficitLeft l' p.1 p.2 c (.node rl rk rv rc rr) <;> simp
+
+theorem RT.del_map (t : RT κ ν) (x : κ) :
+    (t.map h g).del cmp' (h x) = (t.del cmp x).map (RT.mapRes h g) := by
+  simp only [RT.del, RT.delAux_map hc]
+  cases RT.delAux cmp t x <;> simp [RT.mapRes]
+
+theorem rbStep_map (s : RT κ ν × Int) (op : Op κ ν) :
+    rbStep cmp' (s.1.map h g, s.2) (op.map h g) =
+      (rbStep cmp s op).map fun r => ((r.1.1.map h g, r.1.2), r.2.map h g) := by
+  cases op with
+  | ins k v =>
+    simp only [Op.map, rbStep, RT.ins_map hc]
+    cases RT.ins cmp s.1 k v <;> simp [RT.mapRes, Out.map]
+  | insf k v =>
+    simp only [Op.map, rbStep, RT.ins_map hc, RT.toBT_map, BT.lookup_map hc, Option.isSome_map]
+    split
+    · cases RT.ins cmp s.1 k v <;> simp [RT.mapRes, Out.map]
+    · simp [Out.map]
+  | rem k =>
+    simp only [Op.map, rbStep, RT.del_map hc]
+    cases RT.del cmp s.1 k <;> simp [RT.mapRes, Out.map]
+  | get k => simp only [Op.map, rbStep, Out.map, RT.toBT_map, BT.lookup_map hc, Option.map_some]
+  | each j =>
+    simp only [Op.map, rbStep, Out.map, BT.foreachStop, RT.toBT_map, BT.toList_map, Option.map_some]
+    split <;> simp only [mapPairs_take]
+  | clear => simp only [Op.map, rbStep, Out.map, RT.toList_map, mapPairs_length, RT.map, Option.map_some]
+  | count => simp only [Op.map, rbStep, Out.map, Option.map_some]
+
+theorem rbRun_map (s : RT κ ν × Int) (ops : List (Op κ ν)) :
+    rbRun cmp' (s.1.map h g, s.2) (ops.map (Op.map h g)) =
+      (rbRun cmp s ops).map fun r => ((r.1.1.map h g, r.1.2), r.2.map (Out.map h g)) := by
+  induction ops generalizing s with
+  | nil => rfl
+  | cons op ops ih =>
+    simp only [List.map_cons, rbRun, rbStep_map hc]
+    rcases rbStep cmp s op with _ | ⟨s', o⟩
+    · rfl
+    · simp only [Option.map_some, ih]
+      cases rbRun cmp s' ops <;> rfl
+
 end
 end PV.Tree
